@@ -133,7 +133,7 @@ class HMixin(Hooks, NodeMixin):
 class HLight(Hooks, LightNodeMixin):
     """User class on LightNodeMixin with __slots__ (no instance __dict__)."""
 
-    __slots__ = ()
+    __slots__ = ("foo", "name", "lines")
 
     def __init__(self, parent=None, children=None):
         super().__init__()
